@@ -12,6 +12,7 @@ UNITS = {
     "int_encoders": {"template": "contracts/int_encoders.vrs", "rlimit": 30},
     "conditions_parse": {"template": "contracts/conditions_parse.vrs", "rlimit": 60},
     "costs": {"template": "contracts/costs.vrs", "rlimit": 30},
+    "blob_cache": {"template": "contracts/blob_cache.vrs", "rlimit": 60},
     "bls_cache": {"template": "contracts/bls_cache.vrs", "rlimit": 30},
     "merkle_set": {"template": "contracts/merkle_set.vrs", "rlimit": 60},
     "tree_hash": {"template": "contracts/tree_hash.vrs", "rlimit": 60},
@@ -192,6 +193,20 @@ PROPS["C15"] = {
         "interleavings of concurrent verifications at lock granularity (schedules quantifier)",
         "general agreement of verify / aggregate_verify / aggregate_verify_gt (pairing algebra in blst)",
         "the map-closure of BlsCache::aggregate_verify, update and evict (generic IntoIterator + Mutex: outside Verus's subset); cache-transparency is argued from put's frame, not machine-checked",
+    ],
+}
+
+PROPS["C18"] = {
+    "level": "proof",
+    "technique": "Verus contracts on the real BlockStatusCache methods (representation invariant, freshness precondition of add_leaf), on the insertion sites insert_entry_to_blob and upsert, on internal_hash/calculate_internal_hash and ProofOfInclusion::{root_hash,valid}; native evaluation of fixed operation histories on the real crate",
+    "level_text": "Deductive proof that the key/hash/free-index cache keeps its invariant (one index per key and per hash, same index sets, none free) under every add/remove, that a leaf can only be written under a fresh key and hash (a proof obligation at every insertion site under contract: upsert now discharges it), that a failed cache operation changes nothing, and that ProofOfInclusion::valid is exactly the per-layer internal-hash chain ending in root_hash. Whole-history equivalence with a plain map is NOT proved; fixed histories (duplicate keys/hashes in batch_insert, upsert onto another leaf's hash, duplicate insert) are decided by evaluating the real code.",
+    "level_note": "Assumed: vstd HashMap model + key model for KeyId/Hash, IndexSet as a finite set, Sha256 ghost model, and the helper contracts of MerkleBlob (get_leaf_by_key consistency between blob bytes and cache, mark_lineage_as_dirty/insert framing). batch_insert, delete, tree-shape invariants over the blob bytes, dirty-hash propagation and reload equivalence are not under contract.",
+    "components": [V("blob_cache"), N("native_datalayer_ground", "datalayer_ground")],
+    "assumptions": ["HashMap/IndexSet models", "blob-bytes/cache consistency as assumed helper contracts of MerkleBlob"],
+    "not_covered": [
+        "equivalence with a plain map over arbitrary histories; tree-shape invariant over the blob bytes",
+        "batch_insert body (chunks/slice patterns outside Verus's subset) - its duplicate handling is decided on fixed histories only",
+        "delete, dirty-hash propagation / calculate_lazy_hashes, reload equivalence, get_proof_of_inclusion for every key",
     ],
 }
 
